@@ -153,3 +153,151 @@ Section Iso.
     exists h1, h2'. split; [exact He2|]. split; [exact Ha2|]. eapply giso_geq; eauto.
   Qed.
 End Iso.
+
+(* ================= the renumbering induced by a permutation of blocks ================= *)
+(* the graph operations of one block, in the block's canonical numbering: its o_n own nodes are n0, n0+1, ... *)
+Record oseg := { o_n : N; o_e : list (N * N); o_a : list aop }.
+Definition eall (D : N -> Prop) (e : N * N) : Prop := D (fst e) /\ D (snd e).
+Definition aall (D : N -> Prop) (o : aop) : Prop :=
+  match o with AN n _ v => D n /\ vall D v | AE a b _ v => D a /\ D b /\ vall D v end.
+Definition dom (n0 g n : N) : N -> Prop := fun i => i < n0 \/ (g <= i /\ i < g + n).
+Definition oseg_ok (n0 : N) (o : oseg) : Prop := Forall (eall (dom n0 n0 (o_n o))) (o_e o) /\ Forall (aall (dom n0 n0 (o_n o))) (o_a o).
+Fixpoint layE (n0 g : N) (os : list oseg) : list (N * N) :=
+  match os with [] => [] | o :: os' => map (ere (shg n0 g)) (o_e o) ++ layE n0 (g + o_n o) os' end.
+Fixpoint layA (n0 g : N) (os : list oseg) : list aop :=
+  match os with [] => [] | o :: os' => map (are (shg n0 g)) (o_a o) ++ layA n0 (g + o_n o) os' end.
+Definition total (os : list oseg) : N := fold_right (fun o acc => o_n o + acc) 0 os.
+
+Lemma total_perm os os' : Permutation os os' -> total os = total os'.
+Proof.
+  induction 1 as [|x l l' _ IH|x y l|l1 l2 l3 _ IH1 _ IH2].
+  - reflexivity.
+  - change (o_n x + total l = o_n x + total l'). rewrite IH. reflexivity.
+  - change (o_n y + (o_n x + total l) = o_n x + (o_n y + total l)). lia.
+  - congruence.
+Qed.
+
+Section Ops.
+  Lemma ere_ext (D : N -> Prop) r r2 e : eall D e -> (forall i, D i -> r i = r2 i) -> ere r e = ere r2 e.
+  Proof. intros [H1 H2] H. unfold ere. rewrite (H _ H1), (H _ H2). reflexivity. Qed.
+  Lemma are_ext (D : N -> Prop) r r2 o : aall D o -> (forall i, D i -> r i = r2 i) -> are r o = are r2 o.
+  Proof.
+    intros Ho H. destruct o as [n k v|a b k v]; cbn [aall are] in *.
+    - destruct Ho as [H1 H2]. rewrite (H _ H1), (vren_ext D r r2 v H H2). reflexivity.
+    - destruct Ho as (H1 & H2 & H3). rewrite (H _ H1), (H _ H2), (vren_ext D r r2 v H H3). reflexivity.
+  Qed.
+  Lemma ere_comp r r2 e : ere r (ere r2 e) = ere (fun i => r (r2 i)) e. Proof. reflexivity. Qed.
+  Lemma are_comp r r2 o : are r (are r2 o) = are (fun i => r (r2 i)) o.
+  Proof. destruct o; cbn [are]; rewrite vren_comp; reflexivity. Qed.
+  Lemma ere_id e : ere (fun i => i) e = e. Proof. destruct e; reflexivity. Qed.
+  Lemma are_id o : are (fun i => i) o = o. Proof. destruct o; cbn [are]; rewrite vren_idf; reflexivity. Qed.
+  Lemma eall_map (D D' : N -> Prop) r e : eall D e -> (forall i, D i -> D' (r i)) -> eall D' (ere r e).
+  Proof. intros [H1 H2] H. split; cbn [ere fst snd]; auto. Qed.
+  Lemma aall_map (D D' : N -> Prop) r o : aall D o -> (forall i, D i -> D' (r i)) -> aall D' (are r o).
+  Proof.
+    intros Ho H. destruct o as [n k v|a b k v]; cbn [aall are] in *.
+    - destruct Ho as [H1 H2]. split; [auto|eapply vall_vren; eauto].
+    - destruct Ho as (H1 & H2 & H3). split; [auto|]. split; [auto|eapply vall_vren; eauto].
+  Qed.
+  Lemma eall_impl (D D' : N -> Prop) e : (forall i, D i -> D' i) -> eall D e -> eall D' e.
+  Proof. intros H [H1 H2]. split; auto. Qed.
+  Lemma aall_impl (D D' : N -> Prop) o : (forall i, D i -> D' i) -> aall D o -> aall D' o.
+  Proof. intros H. destruct o; cbn [aall]; intuition auto; eapply vall_impl; eauto. Qed.
+  Lemma map_ere_ext (D : N -> Prop) r r2 l : Forall (eall D) l -> (forall i, D i -> r i = r2 i) -> map (ere r) l = map (ere r2) l.
+  Proof. intros Hl H. apply map_ext_in. intros e He. rewrite Forall_forall in Hl. eapply ere_ext; eauto. Qed.
+  Lemma map_are_ext (D : N -> Prop) r r2 l : Forall (aall D) l -> (forall i, D i -> r i = r2 i) -> map (are r) l = map (are r2) l.
+  Proof. intros Hl H. apply map_ext_in. intros e He. rewrite Forall_forall in Hl. eapply are_ext; eauto. Qed.
+  Lemma map_ere_fix (D : N -> Prop) r l : Forall (eall D) l -> (forall i, D i -> r i = i) -> map (ere r) l = l.
+  Proof. intros Hl H. rewrite (map_ere_ext D r (fun i => i) l Hl H). rewrite <- (map_id l) at 2. apply map_ext. apply ere_id. Qed.
+  Lemma map_are_fix (D : N -> Prop) r l : Forall (aall D) l -> (forall i, D i -> r i = i) -> map (are r) l = l.
+  Proof. intros Hl H. rewrite (map_are_ext D r (fun i => i) l Hl H). rewrite <- (map_id l) at 2. apply map_ext. apply are_id. Qed.
+
+  Variable n0 : N.
+
+  Lemma shg_dom g n i : n0 <= g -> dom n0 n0 n i -> dom n0 g n (shg n0 g i).
+  Proof. unfold dom, shg. intros Hg H. destruct (N.ltb_spec i n0); lia. Qed.
+  Lemma placed_E o g : n0 <= g -> oseg_ok n0 o -> Forall (eall (dom n0 g (o_n o))) (map (ere (shg n0 g)) (o_e o)).
+  Proof. intros Hg [H _]. apply Forall_forall. intros e He. apply in_map_iff in He as (e0 & <- & He0). rewrite Forall_forall in H. eapply eall_map; [apply H, He0|]. intros i. apply shg_dom, Hg. Qed.
+  Lemma placed_A o g : n0 <= g -> oseg_ok n0 o -> Forall (aall (dom n0 g (o_n o))) (map (are (shg n0 g)) (o_a o)).
+  Proof. intros Hg [_ H]. apply Forall_forall. intros e He. apply in_map_iff in He as (e0 & <- & He0). rewrite Forall_forall in H. eapply aall_map; [apply H, He0|]. intros i. apply shg_dom, Hg. Qed.
+  Lemma layE_dom os : forall g, n0 <= g -> Forall (oseg_ok n0) os -> Forall (eall (dom n0 g (total os))) (layE n0 g os).
+  Proof.
+    induction os as [|o os IH]; intros g Hg Hok; cbn [layE total fold_right]; [constructor|]. inversion Hok; subst. apply Forall_app. split.
+    - eapply Forall_impl; [|apply placed_E; eassumption]. intros e. apply eall_impl. unfold dom. lia.
+    - eapply Forall_impl; [|apply (IH (g + o_n o)); [lia|assumption]]. intros e. apply eall_impl. unfold dom. fold (total os). lia.
+  Qed.
+  Lemma layA_dom os : forall g, n0 <= g -> Forall (oseg_ok n0) os -> Forall (aall (dom n0 g (total os))) (layA n0 g os).
+  Proof.
+    induction os as [|o os IH]; intros g Hg Hok; cbn [layA total fold_right]; [constructor|]. inversion Hok; subst. apply Forall_app. split.
+    - eapply Forall_impl; [|apply placed_A; eassumption]. intros e. apply aall_impl. unfold dom. lia.
+    - eapply Forall_impl; [|apply (IH (g + o_n o)); [lia|assumption]]. intros e. apply aall_impl. unfold dom. fold (total os). lia.
+  Qed.
+
+  (* exchanging two adjacent ranges [g, g+a) and [g+a, g+a+b) *)
+  Definition swp (g a b : N) (i : N) : N := if i <? g then i else if i <? g + a then i + b else if i <? g + a + b then i - a else i.
+  Lemma swp_inv g a b i : swp g b a (swp g a b i) = i.
+  Proof. unfold swp. repeat match goal with |- context [N.ltb ?x ?y] => destruct (N.ltb_spec x y) end; lia. Qed.
+
+  (* the renumbering: identity outside [g, g + total), a bijection of that range, and the laid-out operations
+     of os, renamed, are a permutation of the laid-out operations of os' *)
+  Lemma perm_ren os os' : Permutation os os' -> Forall (oseg_ok n0) os -> forall g, n0 <= g ->
+    exists r r', (forall i, r' (r i) = i) /\ (forall i, r (r' i) = i) /\
+      (forall i, i < g \/ g + total os <= i -> r i = i /\ r' i = i) /\
+      (forall i, g <= i -> i < g + total os -> (g <= r i /\ r i < g + total os) /\ (g <= r' i /\ r' i < g + total os)) /\
+      Permutation (map (ere r) (layE n0 g os)) (layE n0 g os') /\ Permutation (map (are r) (layA n0 g os)) (layA n0 g os').
+  Proof.
+    induction 1 as [|x l l' HP IH|x y l|l1 l2 l3 HP1 IH1 HP2 IH2]; intros Hok g Hg.
+    - exists (fun i => i), (fun i => i). cbn [layE layA map]. repeat split; auto; lia.
+    - inversion Hok as [|? ? Hx Hl]; subst. destruct (IH Hl (g + o_n x) ltac:(lia)) as (r & r' & I1 & I2 & Fx & Rg & PE & PA).
+      exists r, r'. split; [exact I1|]. split; [exact I2|]. cbn [total fold_right]. fold (total l). split; [|split; [|split]].
+      + intros i Hi. apply Fx. lia.
+      + intros i H1 H2. destruct (N.lt_ge_cases i (g + o_n x)) as [Hlt|Hge].
+        * destruct (Fx i (or_introl Hlt)) as [-> ->]. lia.
+        * destruct (Rg i Hge ltac:(lia)) as [A B]. lia.
+      + cbn [layE]. rewrite map_app. rewrite (map_ere_fix (dom n0 g (o_n x)) r _ (placed_E x g Hg Hx)).
+        * apply Permutation_app_head, PE.
+        * intros i Hi. apply Fx. unfold dom in Hi. lia.
+      + cbn [layA]. rewrite map_app. rewrite (map_are_fix (dom n0 g (o_n x)) r _ (placed_A x g Hg Hx)).
+        * apply Permutation_app_head, PA.
+        * intros i Hi. apply Fx. unfold dom in Hi. lia.
+    - inversion Hok as [|? ? Hy Hl0]; subst. inversion Hl0 as [|? ? Hx Hl]; subst.
+      exists (swp g (o_n y) (o_n x)), (swp g (o_n x) (o_n y)). split; [apply swp_inv|]. split; [apply swp_inv|].
+      cbn [total fold_right]. fold (total l). split; [|split; [|split]].
+      + intros i Hi. unfold swp. repeat match goal with |- context [N.ltb ?a ?b] => destruct (N.ltb_spec a b) end; lia.
+      + intros i H1 H2. unfold swp. repeat match goal with |- context [N.ltb ?a ?b] => destruct (N.ltb_spec a b) end; lia.
+      + cbn [layE]. rewrite !map_app.
+        assert (E1 : map (ere (swp g (o_n y) (o_n x))) (map (ere (shg n0 g)) (o_e y)) = map (ere (shg n0 (g + o_n x))) (o_e y)).
+        { rewrite map_map. apply map_ext_in. intros e He. rewrite ere_comp. destruct Hy as [Hy _]. rewrite Forall_forall in Hy. eapply ere_ext; [apply Hy, He|].
+          intros i Hi. unfold dom in Hi. unfold swp, shg. repeat match goal with |- context [N.ltb ?a ?b] => destruct (N.ltb_spec a b) end; lia. }
+        assert (E2 : map (ere (swp g (o_n y) (o_n x))) (map (ere (shg n0 (g + o_n y))) (o_e x)) = map (ere (shg n0 g)) (o_e x)).
+        { rewrite map_map. apply map_ext_in. intros e He. rewrite ere_comp. destruct Hx as [Hx _]. rewrite Forall_forall in Hx. eapply ere_ext; [apply Hx, He|].
+          intros i Hi. unfold dom in Hi. unfold swp, shg. repeat match goal with |- context [N.ltb ?a ?b] => destruct (N.ltb_spec a b) end; lia. }
+        assert (E3 : map (ere (swp g (o_n y) (o_n x))) (layE n0 (g + o_n y + o_n x) l) = layE n0 (g + o_n x + o_n y) l).
+        { replace (g + o_n x + o_n y) with (g + o_n y + o_n x) by lia. apply (map_ere_fix (dom n0 (g + o_n y + o_n x) (total l))); [apply layE_dom; [lia|exact Hl]|].
+          intros i Hi. unfold dom in Hi. unfold swp. repeat match goal with |- context [N.ltb ?a ?b] => destruct (N.ltb_spec a b) end; lia. }
+        rewrite E1, E2, E3. apply Permutation_app_swap_app.
+      + cbn [layA]. rewrite !map_app.
+        assert (E1 : map (are (swp g (o_n y) (o_n x))) (map (are (shg n0 g)) (o_a y)) = map (are (shg n0 (g + o_n x))) (o_a y)).
+        { rewrite map_map. apply map_ext_in. intros e He. rewrite are_comp. destruct Hy as [_ Hy]. rewrite Forall_forall in Hy. eapply are_ext; [apply Hy, He|].
+          intros i Hi. unfold dom in Hi. unfold swp, shg. repeat match goal with |- context [N.ltb ?a ?b] => destruct (N.ltb_spec a b) end; lia. }
+        assert (E2 : map (are (swp g (o_n y) (o_n x))) (map (are (shg n0 (g + o_n y))) (o_a x)) = map (are (shg n0 g)) (o_a x)).
+        { rewrite map_map. apply map_ext_in. intros e He. rewrite are_comp. destruct Hx as [_ Hx]. rewrite Forall_forall in Hx. eapply are_ext; [apply Hx, He|].
+          intros i Hi. unfold dom in Hi. unfold swp, shg. repeat match goal with |- context [N.ltb ?a ?b] => destruct (N.ltb_spec a b) end; lia. }
+        assert (E3 : map (are (swp g (o_n y) (o_n x))) (layA n0 (g + o_n y + o_n x) l) = layA n0 (g + o_n x + o_n y) l).
+        { replace (g + o_n x + o_n y) with (g + o_n y + o_n x) by lia. apply (map_are_fix (dom n0 (g + o_n y + o_n x) (total l))); [apply layA_dom; [lia|exact Hl]|].
+          intros i Hi. unfold dom in Hi. unfold swp. repeat match goal with |- context [N.ltb ?a ?b] => destruct (N.ltb_spec a b) end; lia. }
+        rewrite E1, E2, E3. apply Permutation_app_swap_app.
+    - assert (Hok2 : Forall (oseg_ok n0) l2) by (apply Forall_forall; intros o Ho; rewrite Forall_forall in Hok; apply Hok; eapply Permutation_in; [apply Permutation_sym, HP1|exact Ho]).
+      destruct (IH1 Hok g Hg) as (r1 & r1' & I1 & I1' & F1 & R1 & PE1 & PA1). destruct (IH2 Hok2 g Hg) as (r2 & r2' & I2 & I2' & F2 & R2 & PE2 & PA2).
+      pose proof (total_perm _ _ HP1) as T12. rewrite <- T12 in F2, R2.
+      exists (fun i => r2 (r1 i)), (fun i => r1' (r2' i)). split; [intros i; rewrite I2, I1; reflexivity|]. split; [intros i; rewrite I1', I2'; reflexivity|].
+      split; [|split; [|split]].
+      + intros i Hi. destruct (F1 i Hi) as [A B]. destruct (F2 i Hi) as [C D]. rewrite A, C, D, B. auto.
+      + intros i H1 H2. destruct (R1 i H1 H2) as [[A1 A2] [B1 B2]]. destruct (R2 i H1 H2) as [[C1 C2] [D1 D2]].
+        destruct (R2 (r1 i) A1 A2) as [[E1 E2] _]. destruct (R1 (r2' i) D1 D2) as [_ [G1 G2]]. lia.
+      + eapply perm_trans; [|exact PE2]. rewrite <- (map_map (ere r1) (ere r2)). apply Permutation_map, PE1.
+      + eapply perm_trans; [|exact PA2]. assert (E : map (are (fun i => r2 (r1 i))) (layA n0 g l1) = map (are r2) (map (are r1) (layA n0 g l1))).
+        { rewrite map_map. apply map_ext. intros o. symmetry. apply are_comp. }
+        rewrite E. apply Permutation_map, PA1.
+  Qed.
+End Ops.
